@@ -105,8 +105,15 @@ Proof.
   apply map_ext_in. intros v Hv. apply resolve_ext; auto.
 Qed.
 
-(* ---------- the abstraction relation ---------- *)
-Definition hkey (t : tabs) (k : nat) : key := key_of_raw (nth k (t_heap t) 0).
+Ltac spl := repeat match goal with |- _ /\ _ => split end; try reflexivity; try exact I;
+  try (intro; reflexivity); try (intro; exact I).
+
+(* ---------- the abstraction relation (for either handle encoding) ---------- *)
+Section Enc.
+Variable enc : henc.
+Hypothesis E_rt : enc_roundtrip enc.
+
+Definition hkey (t : tabs) (k : nat) : key := h_dec enc (nth k (t_heap t) 0).
 
 Definition himg (t : tabs) (o : option sobj) : option obj :=
   match o with
@@ -158,14 +165,11 @@ Proof.
   - eapply Forall_impl; [|exact Hs]. intros o Ho. eapply obj_scoped_mono; [| |exact Ho]; [lia|rewrite app_length; lia].
 Qed.
 
-Ltac spl := repeat match goal with |- _ /\ _ => split end; try reflexivity; try exact I;
-  try (intro; reflexivity); try (intro; exact I).
-
 (* ---------- allocation ---------- *)
 Lemma hp_alloc_sim : forall t sh h B data,
   heap_rel t sh h B -> B + 1 < TWO32 ->
   vals_scoped (length (t_heap t)) (length (t_arr t)) data ->
-  exists w h', hp_alloc h (map (resolve t) data) = (h', IHandle w) /\
+  exists w h', hp_alloc enc h (map (resolve t) data) = (h', IHandle w) /\
     heap_rel (mkTabs (t_heap t ++ [w]) (t_arr t)) (sh ++ [Some (mkSObj 1 data)]) h' (B + 1).
 Proof.
   intros t sh h B data [Hwf Hle Hlen Hb Hi Hg Hs] HB Hd.
@@ -174,12 +178,13 @@ Proof.
   destruct (sm_insert h ob) as [h' k] eqn:Hins.
   assert (Hh' : h' = fst (sm_insert h ob)) by (rewrite Hins; reflexivity).
   assert (Hk : k = snd (sm_insert h ob)) by (rewrite Hins; reflexivity).
-  exists (raw_of_key k), h'. split; [reflexivity|].
+  exists (h_enc enc k), h'. split; [reflexivity|].
   pose proof (sm_insert_key_le h ob B Hle) as [Hki Hkv]. rewrite <- Hk in Hki, Hkv.
-  assert (Hrt : key_of_raw (raw_of_key k) = k) by (apply raw_key_roundtrip; unfold TWO32 in *; lia).
+  assert (Hrt : h_dec enc (h_enc enc k) = k).
+  { apply E_rt; [unfold TWO32 in *; lia|unfold TWO32 in *; lia|rewrite Hk; apply insert_key_odd]. }
   match goal with |- heap_rel ?T _ _ _ => remember T as t' eqn:Ht' end.
   assert (He : ext t t').
-  { rewrite Ht'. split; cbn; [exists [raw_of_key k]; reflexivity|exists []; now rewrite app_nil_r]. }
+  { rewrite Ht'. split; cbn; [eexists; reflexivity|exists []; now rewrite app_nil_r]. }
   assert (Hold : forall j, (j < length sh)%nat -> hkey t' j = hkey t j).
   { intros j Hj. unfold hkey. rewrite Ht'; cbn [t_heap]. rewrite app_nth1 by lia. reflexivity. }
   assert (Hnew : hkey t' (length sh) = k).
@@ -213,7 +218,7 @@ Qed.
 
 (* ---------- operations on an existing handle ---------- *)
 Lemma resolve_heap_arg : forall t n hv, heap_arg n hv = true ->
-  exists k, hv = VHeap k /\ (k < n)%nat /\ key_of_raw (resolve t hv) = hkey t k.
+  exists k, hv = VHeap k /\ (k < n)%nat /\ h_dec enc (resolve t hv) = hkey t k.
 Proof.
   intros t n [w|k|k] H; cbn in H; try discriminate. apply Nat.ltb_lt in H. exists k. repeat split; auto.
 Qed.
@@ -269,9 +274,9 @@ Proof. intros t sh h B B' HB [Hwf Hle Hlen Hb Hi Hg Hs]. constructor; auto. eapp
 Lemma hp_retain_sim : forall t s h B hv,
   heap_rel t (sp_heap s) h B -> heap_arg (length (sp_heap s)) hv = true ->
   exists sh' r, spec_step s (OHeapRetain hv) = (with_heap s sh', r) /\
-    (forall t', res_rel t' r (snd (hp_retain h (resolve t hv)))) /\ sres_fault r = false /\
-    ires_fault (snd (hp_retain h (resolve t hv))) = false /\
-    heap_rel t sh' (fst (hp_retain h (resolve t hv))) (B + 1).
+    (forall t', res_rel t' r (snd (hp_retain enc h (resolve t hv)))) /\ sres_fault r = false /\
+    ires_fault (snd (hp_retain enc h (resolve t hv))) = false /\
+    heap_rel t sh' (fst (hp_retain enc h (resolve t hv))) (B + 1).
 Proof.
   intros t s h B hv HR Ha.
   destruct (resolve_heap_arg t _ _ Ha) as (k & -> & Hk & Hkey).
@@ -291,9 +296,9 @@ Qed.
 Lemma hp_release_sim : forall t s h B hv,
   heap_rel t (sp_heap s) h B -> heap_arg (length (sp_heap s)) hv = true ->
   exists sh' r, spec_step s (OHeapRelease hv) = (with_heap s sh', r) /\
-    (forall t', res_rel t' r (snd (hp_release h (resolve t hv)))) /\ sres_fault r = false /\
-    ires_fault (snd (hp_release h (resolve t hv))) = false /\
-    heap_rel t sh' (fst (hp_release h (resolve t hv))) (B + 1).
+    (forall t', res_rel t' r (snd (hp_release enc h (resolve t hv)))) /\ sres_fault r = false /\
+    ires_fault (snd (hp_release enc h (resolve t hv))) = false /\
+    heap_rel t sh' (fst (hp_release enc h (resolve t hv))) (B + 1).
 Proof.
   intros t s h B hv HR Ha.
   destruct (resolve_heap_arg t _ _ Ha) as (k & -> & Hk & Hkey).
@@ -328,8 +333,8 @@ Proof. intros. apply firstn_map. Qed.
 Lemma hp_load_sim : forall t s h B hv size,
   heap_rel t (sp_heap s) h B -> heap_arg (length (sp_heap s)) hv = true ->
   exists r, spec_step s (OHeapLoad hv size) = (s, r) /\
-    res_rel t r (hp_load h (resolve t hv) size) /\ sres_fault r = ires_fault (hp_load h (resolve t hv) size) /\
-    (forall t', ext t t' -> res_rel t' r (hp_load h (resolve t hv) size)).
+    res_rel t r (hp_load enc h (resolve t hv) size) /\ sres_fault r = ires_fault (hp_load enc h (resolve t hv) size) /\
+    (forall t', ext t t' -> res_rel t' r (hp_load enc h (resolve t hv) size)).
 Proof.
   intros t s h B hv size HR Ha.
   destruct (resolve_heap_arg t _ _ Ha) as (k & -> & Hk & Hkey).
@@ -352,9 +357,9 @@ Lemma hp_store_sim : forall t s h B hv src,
   heap_rel t (sp_heap s) h B -> heap_arg (length (sp_heap s)) hv = true ->
   vals_scoped (length (t_heap t)) (length (t_arr t)) src ->
   exists sh' r, spec_step s (OHeapStore hv src) = (with_heap s sh', r) /\
-    (forall t', res_rel t' r (snd (hp_store h (resolve t hv) (map (resolve t) src)))) /\
-    sres_fault r = ires_fault (snd (hp_store h (resolve t hv) (map (resolve t) src))) /\
-    (sres_fault r = false -> heap_rel t sh' (fst (hp_store h (resolve t hv) (map (resolve t) src))) (B + 1)).
+    (forall t', res_rel t' r (snd (hp_store enc h (resolve t hv) (map (resolve t) src)))) /\
+    sres_fault r = ires_fault (snd (hp_store enc h (resolve t hv) (map (resolve t) src))) /\
+    (sres_fault r = false -> heap_rel t sh' (fst (hp_store enc h (resolve t hv) (map (resolve t) src))) (B + 1)).
 Proof.
   intros t s h B hv src HR Ha Hsrc.
   destruct (resolve_heap_arg t _ _ Ha) as (k & -> & Hk & Hkey).
@@ -371,3 +376,4 @@ Proof.
     + exists (sp_heap s). eexists. split; [destruct s; reflexivity|]. cbn. spl. discriminate.
   - exists (sp_heap s). eexists. split; [destruct s; reflexivity|]. cbn. spl. discriminate.
 Qed.
+End Enc.
